@@ -722,3 +722,70 @@ def check_pess(mon, tr, step):
                               f"(margin {lo_best:.4g}) but is in the pessimistic set", ctx)
         else:
             mon.event(h, False, "inrun/indeterminate")
+
+
+# ---------------------------------------------------------------------------------------
+# C07 for VOGP_AD: the arg-max node is either refined or sampled at its centre
+# ---------------------------------------------------------------------------------------
+def check_acquisition_ad(mon, tr, step):
+    case = tr.case
+    alg = tr.alg
+    ph = phase(step, "evaluate_refine")
+    if ph is None:
+        return
+    ds = alg.design_space
+    pub = {**case_public(case), "round": step["round_pre"]}
+    S0, P0, _ = ph["pre"]
+    active = set(S0) | set(P0 or set())
+    R = ph["regions"]
+    pts_before = ds.points[: ph["n_points_before"]]
+
+    def node_of(x):
+        hit = np.nonzero((pts_before == np.asarray(x)[None, :]).all(axis=1))[0]
+        return int(hit[0]) if len(hit) else None
+
+    opts = [o for o in OPT_LOG[ph["opt_start"]:ph["opt_end"]] if not o.get("nested")]
+    if len(opts) != 1:
+        mon.count("optimiser_calls_unexpected")
+        return
+    o = opts[0]
+    offered = sorted(node_of(x) for x in o["choices"])
+    if offered != sorted(active):
+        mon.violation("acq:choices-not-active-set", f"VOGP_AD: optimiser was offered {offered}, active nodes {sorted(active)}", pub)
+        return
+    pick = node_of(np.atleast_2d(o["candidates"])[0])
+    diag = {i: float(np.linalg.norm(R[i][2] - R[i][1])) for i in active}
+    best = max(diag.values())
+    mon.count("tables_checked")
+    mon.count("rule_values_checked", len(diag))
+    mon.event(case_hash("ade", case["seed"], step["round_pre"]), True, "VOGP_AD/evaluate-refine")
+    if pick is None or diag[pick] < best - 1e-9 * (1 + best):
+        mon.violation("acq:not-argmax", f"VOGP_AD round {step['round_pre']}: picked node {pick} with diagonal {diag.get(pick)}, maximum {best}", pub)
+        return
+    reqs = tr.rec.log[ph["req_start"]:ph["req_end"]]
+    refined = len(ds.points) > ph["n_points_before"] if step is tr.steps[-1] else None
+    n_after = step.get("npoints_post")
+    refined = (S0 | (P0 or set())) != (ph["post"][0] | (ph["post"][1] or set()))
+    if refined:
+        mon.count("ad_refine_steps")
+        if reqs:
+            mon.violation("acq:refine-and-sample", f"VOGP_AD: node {pick} was refined and {len(reqs)} observation(s) requested in the same step", pub)
+        if pick in (ph["post"][0] | (ph["post"][1] or set())):
+            mon.violation("acq:refined-other-node", f"VOGP_AD: arg-max node {pick} still active after a refining step", pub)
+    else:
+        mon.count("ad_sample_steps")
+        mon.count("evaluations_observed", len(reqs))
+        if len(reqs) != 1 or len(np.atleast_2d(reqs[0]["x"])) != 1:
+            mon.violation("acq:batch-size", f"VOGP_AD: {len(reqs)} requests in a sampling step", pub)
+            return
+        x = np.atleast_2d(reqs[0]["x"])[0]
+        if node_of(x) != pick:
+            mon.violation("acq:request-differs-from-picks", f"VOGP_AD: arg-max node {pick} at {ds.points[pick]}, problem was asked at {x}", pub)
+        # data delivery
+        before, after = ph["model_before"], ph["model_after"]
+        new = [e for e in after if e not in before]
+        mon.count("data_delta_checked")
+        want_y = tuple(np.round(np.atleast_2d(reqs[0]["y"])[0], 14))
+        if len(after) != len(before) + 1 or len(new) != 1 or tuple(np.round(new[0][2], 14)) != want_y \
+                or np.abs(np.asarray(new[0][0]) - x).max() > 0:
+            mon.violation("data:delta-mismatch", f"VOGP_AD round {step['round_pre']}: model data grew by {new[:2]}, request returned {want_y} at {x}", pub)
